@@ -5,6 +5,9 @@ import random
 
 ID = "C08"
 ML = "mC08"
+# other harnesses whose sanitizer verdicts count for this property (see tools/core.py)
+ALSO_MEMORY_QUICK = ["C01", "C04", "C09", "C13", "C14", "C16", "C17", "C18"]
+ALSO_MEMORY_THOROUGH = ["C01", "C03", "C04", "C09", "C10", "C12", "C13", "C14", "C15", "C16", "C17", "C18", "C20"]
 HARNESS = "harness/C08.c"
 SRCS = None
 EXCLUDE = ["window.c"]          # #included by the harness so that the final dump can read link fields and the queue
